@@ -528,6 +528,27 @@ def check_limit_enforced(ctx, key, adt, field, scope, F=None, accessor=None):
                 break
         if best:
             break
+    if not best:
+        # one/two-level interprocedural: the field value is passed to a callee that rejects on it
+        tag = "." + field
+        for n in readers:
+            for b in ctx.bodies_of(F.fns[n].root, F):
+                for bb, t in b.calls(None):
+                    for j, a in enumerate(t["args"]):
+                        if any(tag in x.proj for x in b.origins(a, deep=True)):
+                            for tg in [t["f"]] + F.impls().get(t["f"], []) + F.impls().get(t["fd"], []):
+                                r = param_guarded(ctx, tg, j + 1, 2, F)
+                                if r:
+                                    best = r
+                                    break
+                        if best:
+                            break
+                    if best:
+                        break
+                if best:
+                    break
+            if best:
+                break
     if best:
         b, sb = best
         ctx.sample({"rule": "T7 limit enforced", "field": field, "fn": b.name, "guard_block": sb, "line": b.line(sb)})
@@ -553,3 +574,33 @@ def check_each_try_dominates(ctx, key, body, pattern, targets, what, min_calls=1
                f"{what}: the check at line {body.line(cbb)} " + ("dominates the write" if ok else f"is BYPASSED: {body.fmt_path(wit)}"), body.loc(cbb))
         ok_all = ok_all and ok
     return ok_all
+
+
+def param_guarded(ctx, fname, pidx, depth=2, F=None, seen=None):
+    """does function `fname` (or a callee it forwards the parameter to, up to `depth` levels, CHA for trait methods) contain a branch that
+    depends on parameter #pidx and has a rejecting (doomed) arm?  -> (body, switch_bb) or None"""
+    F = F or ctx.F
+    seen = seen or set()
+    if (fname, pidx) in seen or fname not in F.fns:
+        return None
+    seen.add((fname, pidx))
+    for b in ctx.bodies_of(F.fns[fname].root, F):
+        if b.name != fname:
+            continue
+        for sb in b.switches():
+            ats = b.origins(b.term(sb)["o"], deep=True)
+            if any(a.kind == "param" and a.what == pidx for a in ats):
+                succs = b.succs(sb)
+                d = [s for s in succs if doomed(b, s)]
+                if d and len(d) < len(succs):
+                    return b, sb
+        if depth > 0:
+            for bb, t in b.calls(None):
+                for j, a in enumerate(t["args"]):
+                    if any(x.kind == "param" and x.what == pidx for x in b.origins(a, deep=True)):
+                        targets = [t["f"]] + F.impls().get(t["f"], []) + F.impls().get(t["fd"], [])
+                        for tg in targets:
+                            r = param_guarded(ctx, tg, j + 1, depth - 1, F, seen)
+                            if r:
+                                return r
+    return None
